@@ -305,10 +305,10 @@ SUBS = [
     Sub(name='per-state', kind='hyp', run=run_states, strategy=state_cases,
         rule='per-state RDFs from a real Transitions object: every (frame, diffuser, atom) pair within the cut-off in exactly one (state class, bin); "@L" only frames at a site labelled L, "X->Y" only frames between X and Y',
         n={'quick': 100, 'thorough': 2000}, shards={'quick': 8, 'thorough': 16}),
-    Sub(name='long-runs-between-species', kind='hyp', run=run_species, strategy=long_species_cases,
+    Sub(name='long-runs-between-species', kind='hyp', shrink=False, run=run_species, strategy=long_species_cases,
         rule='the between-species systems repeated cyclically to 999 - 4097 (10 001) frames (round numbers and their neighbours): same clauses on runs longer than any internal block size',
         n={'quick': 5, 'thorough': 40}, shards={'quick': 6, 'thorough': 16}),
-    Sub(name='long-runs-per-state', kind='hyp', run=run_states, strategy=long_state_cases,
+    Sub(name='long-runs-per-state', kind='hyp', shrink=False, run=run_states, strategy=long_state_cases,
         rule='the per-state systems repeated cyclically to 999 - 4097 frames: same partition clauses on long runs',
         n={'quick': 3, 'thorough': 25}, shards={'quick': 6, 'thorough': 16}),
 ]
